@@ -172,7 +172,7 @@ func c15Run(t *testing.T, root string, N int, wl *iprange.IPRange, hist []c15Ev,
 func TestC15(t *testing.T) {
 	r := NewReporter(t)
 	defer r.Done()
-	r.Rule("Serve(FilterListener(LimitListener(listener, N), whitelist)) wired as in cmd/: N in {1,2,3} (and unlimited) x explicit-state breadth-first search over event histories {arrival inside / outside the whitelist, client i sends a request, client i closes} up to a depth with <= 4N live clients, deduplicated by the abstract state (per client: in/out, closed, requests sent, served, finished); invariants evaluated in every state + capacity-recovery probe from every state; every pattern of 4 arrivals whose connection Close reports an error; plus whitelist spec x source address grid over 127.0.0.0/8 and ::1; the real binary with both flags, and with a client limit under a descriptor limit chosen so that accept(2) fails while a client is served (capacity must come back); distinct by abstract state")
+	r.Rule("Serve(FilterListener(LimitListener(listener, N), whitelist)) wired as in cmd/: N in {1,2,3} (and unlimited) x explicit-state breadth-first search over event histories {arrival inside / outside the whitelist, client i sends a request, client i closes} up to a depth with <= 4N live clients, deduplicated by the abstract state (per client: in/out, closed, requests sent, served, finished); invariants evaluated in every state + capacity-recovery probe from every state; every pattern of 4 arrivals whose connection Close reports an error; plus whitelist spec x source address grid over 127.0.0.0/8 and ::1; the real binary with both flags, and with a client limit under a descriptor limit chosen so that accept(2) fails while a client is served (capacity must come back), and after 2N large transfers that the client reset half-way; distinct by abstract state")
 	w := newWorld(t, "srv/root")
 	defer w.Cleanup()
 	w.File("a.txt", 10, 1)
@@ -566,6 +566,73 @@ func TestC15(t *testing.T) {
 		}
 		if !reached {
 			r.Outcome("bin-accept-errors-not-reached")
+		}
+		// transfers that end badly (the client resets the connection in the middle of a large answer) must not use up
+		// anything the limit depends on: after 2N of them N new clients are served - including a file read - at once
+		if f, err := os.Create(filepath.Join(w.Root, "large.bin")); err == nil {
+			f.Truncate(512 << 20)
+			f.Close()
+			for _, N := range []int{1, 2} {
+				b, err := startBin([]string{"server", "--listen-addr=127.0.0.1:0", "--root=" + w.Root, sprintf("--max-clients=%d", N), "--read-timeout=5m"}, cleanEnv(logDir), w.Dir, filepath.Join(logDir, "server.log"), 30*time.Second)
+				if err != nil {
+					r.HarnessError("cannot start the real binary: " + err.Error())
+					break
+				}
+				r.Trace(1)
+				r.State(sprintf("real binary: aborted transfers with --max-clients=%d", N))
+				for k := 0; k < 2*N; k++ {
+					c, err := dialFrom(b.Addr, "", 10*time.Second)
+					if err != nil {
+						break
+					}
+					c.exchange(mkReq(opOpenFile, "/large.bin"), szOpenFile, 30*time.Second)
+					crit := rdcReq(0, 400<<20)
+					if k%2 == 1 {
+						crit = rdReq(0, 400<<20)
+					}
+					c.c.Write(crit.Encode())
+					c.readN(100000, 30*time.Second)
+					if tc, ok := c.c.(*net.TCPConn); ok {
+						tc.SetLinger(0) // reset instead of an orderly close
+					}
+					c.Close()
+					time.Sleep(100 * time.Millisecond)
+				}
+				var cs []*tcpClient
+				okAll := true
+				why := ""
+				for k := 0; k < N && okAll; k++ {
+					c, err := dialFrom(b.Addr, "", 10*time.Second)
+					if err != nil {
+						okAll, why = false, "cannot connect: "+err.Error()
+						break
+					}
+					cs = append(cs, c)
+					if ok, _, _ := c.statProbe("/", 30*time.Second); !ok {
+						okAll, why = false, sprintf("client %d of %d was not answered within 30 s", k+1, N)
+						break
+					}
+					if resp, err := c.exchange(mkReq(opOpenFile, "/held.bin"), szOpenFile, 30*time.Second); err != nil || int64(be64(resp)) != 3000 {
+						okAll, why = false, sprintf("client %d of %d: open of a small file not answered", k+1, N)
+						break
+					}
+					if resp, err := c.exchange(rdReq(0, 3000), 4+3000, 30*time.Second); err != nil || len(resp) != 3004 {
+						okAll, why = false, sprintf("client %d of %d: a 3000-byte read was not answered within 30 s (%d bytes)", k+1, N, len(resp))
+						break
+					}
+				}
+				for _, c := range cs {
+					c.Close()
+				}
+				if !okAll {
+					r.Outcome("bin-aborted-transfers-lose-capacity")
+					r.Violation("C15:bin:aborted-transfers:capacity-lost", sprintf("real binary with --max-clients=%d after %d transfers that the client reset half-way: %s | %s", N, 2*N, why, lastLines(b.Log(), 3)), map[string]any{"N": N})
+				} else {
+					r.Outcome("bin-aborted-transfers-keep-capacity")
+				}
+				b.Stop()
+			}
+			os.Remove(filepath.Join(w.Root, "large.bin"))
 		}
 		os.RemoveAll(logDir)
 	}
